@@ -564,7 +564,101 @@ def run_live(case):
             "nontrivial": ["live|%s|%s|%s" % ("+".join("%s:%s" % (a, writers[a][0]) for a in sorted(writers)), warm, ext)], "feats": ["live-handle"]}
 
 
+def run_livebitmap(case):
+    """the handle that generated the bitmaps keeps them in memory (bitmaps read back from disk are never consulted on this tree): a
+    sequence of reachability / transfer-set queries on that handle against the same sequence on a handle of a bitmap-free copy. The
+    order matters (an earlier multi-head query must not change what a later query answers)."""
+    from dulwich.object_store import MissingObjectFinder
+    from dulwich.repo import Repo
+    rng = random.Random(case["seed"])
+    sc = scratch()
+    viol, stats, feats = [], {}, set()
+    install_probes()
+    d = build_repo(rng, sc, feats, 12)
+    core.git(["repack", "-adq"], cwd=d, extra_cfg=["repack.writeBitmaps=false"])
+    for f in os.listdir(packdir(d)):
+        if f.endswith((".bitmap", ".rev")):
+            os.unlink(os.path.join(packdir(d), f))
+    d0 = d + ".plain"
+    shutil.copytree(d, d0, symlinks=True)
+    now = c05.all_objects(d)
+    commits = sorted(i for i, t in now.items() if t == b"commit")
+    heads = []
+    for line in core.git(["for-each-ref", "--format=%(objectname) %(objecttype)"], cwd=d).stdout.splitlines():
+        v, t = line.split()
+        if t == b"commit" and v not in heads:
+            heads.append(v)
+    if len(commits) < 3:
+        shutil.rmtree(d, ignore_errors=True)
+        shutil.rmtree(d0, ignore_errors=True)
+        return {"viol": [], "stats": {}, "evaluations": 0, "nontrivial": []}
+    # query script (ids only; the same script runs on both handles)
+    script = []
+    for _ in range(rng.randrange(4, 12)):
+        k = rng.choice(["missing", "missing", "reach_commits", "reach_commits_ex", "reach_objects"])
+        a = rng.sample(commits, rng.choice([1, 1, 2, 3]) if len(commits) > 3 else 1)
+        b = rng.sample(commits, rng.choice([0, 1, 1, 2, 3]) if len(commits) > 3 else 1)
+        script.append((k, a, b))
+    interval = rng.choice([None, 1, 1, 2])
+    res = []
+    for k in PROBE:
+        PROBE[k] = 0
+    for dd, withbm in ((d, True), (d0, False)):
+        r = Repo(dd)
+        out = []
+        try:
+            st = r.object_store
+            if withbm:
+                st.pack_write_bitmap_hash_cache = rng.random() < 0.5
+                st.pack_write_bitmap_lookup_table = rng.random() < 0.5
+                try:
+                    st.generate_pack_bitmaps({k_: v for k_, v in r.get_refs().items()}, commit_interval=interval)
+                except Exception as e:
+                    viol.append({"sig": "C14/live-bitmap/generate_pack_bitmaps-raises-%s" % type(e).__name__, "msg": str(e)[:200]})
+                    break
+            for k, a, b in script:
+                try:
+                    if k == "missing":
+                        v = sorted(e[0].decode()[:10] for e in MissingObjectFinder(st, haves=b, wants=a))
+                    else:
+                        prov = st.get_reachability_provider()
+                        if k == "reach_commits":
+                            v = sorted(x.decode()[:10] for x in prov.get_reachable_commits(a))
+                        elif k == "reach_commits_ex":
+                            v = sorted(x.decode()[:10] for x in prov.get_reachable_commits(a, exclude=b))
+                        else:
+                            v = sorted(x.decode()[:10] for x in prov.get_reachable_objects(a, exclude_commits=b or None))
+                except (MemoryError, RecursionError):
+                    raise
+                except Exception as e:
+                    v = "raises:" + type(e).__name__
+                out.append(v)
+        finally:
+            r.close()
+        res.append(out)
+    if len(res) == 2:
+        stats["live_bitmap_cases"] = 1
+        stats["queries_compared"] = len(script)
+        for k, v in PROBE.items():
+            stats["live_bitmap:" + k] = v
+        seen = set()
+        for i, ((k, a, b), x, y) in enumerate(zip(script, res[0], res[1])):
+            if x != y:
+                how = x if isinstance(x, str) else ("answers-where-plain-" + y if isinstance(y, str) else
+                                                    ("superset" if set(y) < set(x) else "subset" if set(x) < set(y) else "different-set"))
+                first = "first-query" if i == 0 else "after-%s" % script[i - 1][0]
+                sig = "C14/live-bitmap/%s/%s/heads=%d,exclude=%d" % (k, how, min(len(a), 2), min(len(b), 2))
+                if sig not in seen:
+                    seen.add(sig)
+                    viol.append({"sig": sig, "step": i, "position": first, "with": core.short(x, 200), "without": core.short(y, 200), "interval": interval})
+    shutil.rmtree(d, ignore_errors=True)
+    shutil.rmtree(d0, ignore_errors=True)
+    return {"viol": viol, "stats": stats, "evaluations": len(script), "nontrivial": ["livebitmap|" + ",".join(x[0] for x in script)], "feats": ["live-bitmap"]}
+
+
 def run_case(case):
+    if case.get("kind") == "livebitmap":
+        return run_livebitmap(case)
     if case.get("kind") == "refops":
         return run_refops(case)
     if case.get("kind") == "live":
@@ -749,6 +843,8 @@ def main(ctx):
         cases.append({"kind": "refops", "seed": "%d/r/%d" % (ctx.seed, i)})
     for i in range(ctx.budget(150, 3000)):
         cases.append({"kind": "live", "seed": "%d/l/%d" % (ctx.seed, i)})
+    for i in range(ctx.budget(150, 3000)):
+        cases.append({"kind": "livebitmap", "seed": "%d/b/%d" % (ctx.seed, i)})
     ctx.rule = ("random git-built histories (C05 generator: merges, octopus, several roots, tags of all kinds, gitlinks; 1-3 packs + loose) x random "
                 "subset of {commit-graph, midx, bitmap (hash cache / lookup table on/off), packed-refs, idx v1/v2/v3} written by C git or dulwich x "
                 "staleness {none, new loose commits, new pack, deleted refs, full repack with old files put back, prune with old files put back, "
